@@ -412,22 +412,34 @@ func ruleSaveRestore(c *eng.Ctx) {
 		}
 	}
 	// Save pushes Clone()
-	pushed := false
-	eng.Instrs(save, false, func(in ssa.Instruction) {
-		stx, ok := in.(*ssa.Store)
+	// the stack is whatever storage of type []*GraphicsState the state keeps (a field, or a field of a small stack
+	// type with push/pop methods): the stores and element reads are looked for in Save/Restore and their helpers
+	isStateSlice := func(t types.Type) bool {
+		sl, ok := t.Underlying().(*types.Slice)
 		if !ok {
-			return
+			return false
 		}
-		if fr, ok := eng.AsField(stx.Addr); !ok || fr.Field != "stack" {
-			return
-		}
-		sl := eng.Slice(stx.Val, func(*ssa.Call) bool { return true })
-		for v := range sl {
-			if call, ok := v.(*ssa.Call); ok && call.Call.StaticCallee() == clone {
-				pushed = true
+		pt, ok := sl.Elem().Underlying().(*types.Pointer)
+		return ok && types.Identical(pt.Elem(), types.Type(gsT))
+	}
+	pushed := false
+	saveCluster := eng.Cluster(save, 1)
+	for _, h := range saveCluster {
+		eng.Instrs(h, false, func(in ssa.Instruction) {
+			stx, ok := in.(*ssa.Store)
+			if !ok || !isStateSlice(stx.Val.Type()) {
+				return
 			}
-		}
-	})
+			if _, ok := eng.AsField(stx.Addr); !ok {
+				return
+			}
+			for v := range eng.SliceInter(stx.Val, func(*ssa.Call) bool { return true }, saveCluster) {
+				if call, ok := v.(*ssa.Call); ok && call.Call.StaticCallee() == clone {
+					pushed = true
+				}
+			}
+		})
+	}
 	c.Check(pushed, R, gsType+"Save#push", save.Pos(), "Save appends Clone() to the stack", "Save does not push a Clone() of the state onto the stack")
 	// Restore: source element index is len(stack)-1 and the stack is re-sliced to [:len-1]
 	popLast, shrink := false, false
@@ -447,18 +459,20 @@ func ruleSaveRestore(c *eng.Ctx) {
 		bi, ok := call.Call.Value.(*ssa.Builtin)
 		return ok && bi.Name() == "len"
 	}
-	eng.Instrs(restore, false, func(in ssa.Instruction) {
-		switch x := in.(type) {
-		case *ssa.IndexAddr:
-			if isLenMinus1(x.Index) {
-				popLast = true
+	for _, h := range eng.Cluster(restore, 1) {
+		eng.Instrs(h, false, func(in ssa.Instruction) {
+			switch x := in.(type) {
+			case *ssa.IndexAddr:
+				if isLenMinus1(x.Index) && isStateSlice(x.X.Type()) {
+					popLast = true
+				}
+			case *ssa.Slice:
+				if x.Low == nil && x.High != nil && isLenMinus1(x.High) && isStateSlice(x.X.Type()) {
+					shrink = true
+				}
 			}
-		case *ssa.Slice:
-			if x.Low == nil && x.High != nil && isLenMinus1(x.High) {
-				shrink = true
-			}
-		}
-	})
+		})
+	}
 	c.Check(popLast, R, gsType+"Restore#top", restore.Pos(), "Restore reads stack[len-1]", "Restore does not take the most recently saved state (stack[len(stack)-1])")
 	c.Check(shrink, R, gsType+"Restore#pop", restore.Pos(), "Restore shrinks the stack by one", "Restore does not remove exactly the last element from the stack")
 }
@@ -726,6 +740,15 @@ func ruleOperatorBinding(c *eng.Ctx) {
 		c.Undec(R, "text.(*Extractor).invokeXObject", token.NoPos, "anchor not found")
 	} else {
 		saves := eng.Calls(inv, false, func(n string, _ ssa.CallInstruction) bool { return n == gsType+"Save" })
+		if len(saves) == 0 {
+			// the bracket may sit in the stage that runs the form (lookup stage + run stage)
+			for _, h := range eng.Cluster(inv, 1) {
+				if sv := eng.Calls(h, false, func(n string, _ ssa.CallInstruction) bool { return n == gsType+"Save" }); len(sv) > 0 {
+					saves, inv = sv, h
+					break
+				}
+			}
+		}
 		if len(saves) != 1 {
 			c.Viol(R, "text.(*Extractor).invokeXObject#Save", inv.Pos(), fmt.Sprintf("expected exactly one Save around the form's content, found %d", len(saves)))
 		} else {
